@@ -178,7 +178,7 @@ func init() {
 				for _, g := range guardsOf(guardBlock) {
 					cnd, flip := stripNot(g.If.Cond)
 					want := g.Branch != flip
-					if b, ok := cnd.(*ssa.BinOp); ok && b.Op == token.EQL && want {
+					if b, ok := cnd.(*ssa.BinOp); ok && ((b.Op == token.EQL && want) || (b.Op == token.NEQ && !want)) {
 						if s, ok := constString(b.Y); ok && s == "" {
 							noLayout = true
 						}
@@ -377,7 +377,8 @@ func init() {
 			}
 			checkOrder := func(fnName string, order []src) {
 				fn := p.MustFn(fnName)
-				// ranges over each source, in CFG order
+				// ranges over each source, in CFG order; a merge helper extracted from fn is looked into:
+				// a range over a parameter of a direct module callee counts for the source its argument comes from
 				var pos []ssa.Instruction
 				for _, s := range order {
 					var found ssa.Instruction
@@ -386,6 +387,30 @@ func init() {
 							found = r
 						}
 					})
+					if found == nil {
+						for _, site := range callsIn(fn) {
+							callee := site.Common().StaticCallee()
+							if callee == nil || !inModule(callee) || callee == fn || found != nil {
+								continue
+							}
+							for ai, a := range site.Common().Args {
+								if ai >= len(callee.Params) || !s.is(a) {
+									continue
+								}
+								eachInstr(callee, func(in ssa.Instruction) {
+									if r, ok := in.(*ssa.Range); ok && found == nil && r.X == callee.Params[ai] {
+										found = r
+									}
+								})
+							}
+							// … or the helper obtains the source itself
+							eachInstr(callee, func(in ssa.Instruction) {
+								if r, ok := in.(*ssa.Range); ok && found == nil && s.is(r.X) {
+									found = r
+								}
+							})
+						}
+					}
 					c.check(found != nil, fnName+": merges "+s.name, p.pos(fn.Pos()), "range over "+s.name, "the source `"+s.name+"` is no longer merged here")
 					pos = append(pos, found)
 				}
@@ -460,7 +485,7 @@ func init() {
 								if o == recv {
 									wrote = n + " on the receiver at " + p.instrPos(x)
 								}
-								if f := loadedField(o); f != nil && f.Name() == "stack" {
+								if f := loadedField(o); f != nil && fieldIs(f, "stack") {
 									if ld, ok := o.(*ssa.UnOp); ok {
 										if fa, ok := ld.X.(*ssa.FieldAddr); ok && fa.X == recv {
 											wrote = n + " on the receiver's stack at " + p.instrPos(x)
@@ -480,7 +505,7 @@ func init() {
 				if !ok {
 					return
 				}
-				if fv := fieldVar(st.Addr); fv != nil && fv.Name() == "stack" {
+				if fv := fieldVar(st.Addr); fv != nil && fieldIs(fv, "stack") {
 					okStack = true
 					for _, o := range p.origins(st.Val, OriginOpts{}) {
 						if isCallNamed(o, "(*vuego.Stack).Copy", "vuego.NewStack", "vuego.NewStackWithData") == nil {
